@@ -44,6 +44,12 @@ CHECKS.update({
             "All pairs are enumerated for the generated tree sizes (quick <= ~100 leaves); high-index proofs are covered in C01's pre-state campaign.", "DESIGN.md §4 C08"),
 })
 
+CHECKS.update({
+    "C05": ("exploration", "runtime monitor: online order/content oracle on the blocks handed over by the real downloader/driver over a chain simulator; small static chains exhaustively; real L1 info syncer vs reference",
+            "The real EVMDownloader.Download runs on every static chain of up to 6 (quick) / 8 (thorough) blocks x chunk size x finalized pointer (plus inconsistent log/header backends around the retry limit); the real downloader + real driver run on chains that grow and finalize between RPC calls with transient RPC errors, lagging header backends, transient processor errors and inconsistent backends; the real l1infotreesync syncer runs on the same simulator. Every block handed over must be the canonical block with exactly its watched logs in log order, strictly increasing, never past an undelivered event block; at quiescence every event block up to the tip was delivered exactly once, and the real store equals the reference. One genuine defect found and repaired.",
+            "Finalized blocks are never reorged and all RPC backends agree on them; quiescence = consecutive head polls without other RPCs, with re-evaluation before an end-state verdict counts.", "DESIGN.md §4 C05"),
+})
+
 # properties not (yet) claimed: reason
 NOT_APPLICABLE = {
 }
